@@ -2,6 +2,8 @@ package ischema
 
 import (
 	"fmt"
+	"sort"
+	"strings"
 
 	"github.com/jsightapi/jsight-schema-core/bytes"
 	"github.com/jsightapi/jsight-schema-core/errs"
@@ -22,6 +24,52 @@ func New() ISchema {
 
 func (s ISchema) TypesList() map[string]Type {
 	return s.types
+}
+
+// TypeNames returns the names of all types in a reproducible order: the named
+// types by name, then the unnamed ones (their names contain a heap address, see
+// AddUnnamedType) by the file and the position they were found at.
+func (s ISchema) TypeNames() []string {
+	l := typeNameList{types: s.types, names: make([]string, 0, len(s.types))}
+	for name := range s.types {
+		l.names = append(l.names, name)
+	}
+	sort.Stable(l)
+	return l.names
+}
+
+type typeNameList struct {
+	types map[string]Type
+	names []string
+}
+
+func (l typeNameList) Len() int      { return len(l.names) }
+func (l typeNameList) Swap(i, j int) { l.names[i], l.names[j] = l.names[j], l.names[i] }
+
+func (l typeNameList) Less(i, j int) bool {
+	a, b := l.names[i], l.names[j]
+	ua, ub := strings.HasPrefix(a, "#"), strings.HasPrefix(b, "#")
+	if ua != ub {
+		return ub
+	}
+	if !ua {
+		return a < b
+	}
+	ta, tb := l.types[a], l.types[b]
+	fa, fb := "", ""
+	if ta.RootFile != nil {
+		fa = ta.RootFile.Name()
+	}
+	if tb.RootFile != nil {
+		fb = tb.RootFile.Name()
+	}
+	if fa != fb {
+		return fa < fb
+	}
+	// Unnamed types found at the same position (the alternatives of one type
+	// choice) are left in the order they come in: their names only differ in
+	// the address.
+	return ta.Begin < tb.Begin
 }
 
 // MustType returns *ISchema or panic if not found.
